@@ -26,7 +26,8 @@ EXPLANATION = (
     ' (R11) a file that vanished between queueing and commit fails the commit: commit-time validate_data_files dominates the manifest (shared with C11.R8).'
     " (R15) retry discipline incl. 'not found stays retryable' (C20.R3): a fresh marker that briefly reads as missing is not taken for a finished transaction; (R16) the abandonment window is the design constant (C05.R18)."
     " R1 also decides, by scenario for two files, that the marker lands in the collector's directory with its suffix, that markers differ per file and that the payload names the table-relative path."
-    ' R3 places a lazy (generator) marker loader at the statement that CONSUMES it; a generator consumed on the spot is read as its collecting form, a renamed loader is read under its audited name.')
+    ' R3 places a lazy (generator) marker loader at the statement that CONSUMES it; a generator consumed on the spot is read as its collecting form, a renamed loader is read under its audited name.'
+    ' R1 / R10 accept the marker travelling as a callback: pre_write_hook=_register_inflight, and the producer calls the hook with its own file_path parameter before it creates the writer.')
 NOT_DECIDED = "grace-period arithmetic versus run duration; the interleavings themselves"
 
 GC = "garbage_collector.GarbageCollector"
